@@ -127,8 +127,6 @@ Variable flg : nat -> bool * bool.
 Variable bdtf : nat -> bool.
 Variable icast : T -> T.
 
-Definition leaf_id (e : elem) : nat := match e with Leaf i => i | Node _ => 0%nat end.
-
 Definition run_b (inplace : bool) (k : bkind) (sp0 : space) (other : elem) (x t : elem) : store T -> outcome T :=
   if inplace then
     match k with
